@@ -61,8 +61,8 @@ class Kinds:
             return k(CONST)
         if tag not in ("phi",):
             shp = self.shapes.shape(t, facts, fi, None, res)
-            if shp and shp <= {E, N}:
-                return k(CONST)
+            if shp <= {E, N}:
+                return k(CONST)     # known empty / None: kind-neutral (an empty shape set = infeasible path condition)
         d = depth + 1
         kd = lambda x: self.kind(x, facts, fi, pk, res, d)
         if tag == "param":
@@ -206,6 +206,23 @@ class Kinds:
             self._active.discard(key)
         self._summ[key] = out
         return out
+
+    def contexts(self, fi):
+        """[(bindings, param kinds)] under which an internal function is called: call sites grouped by their boolean
+        literal arguments. Entry points have the single context ({}, {})."""
+        if self.is_entry(fi) or fi.qual in ENCODED_FLAG:
+            return [({}, {})]
+        self.caller_kinds(fi)       # builds the call-site index
+        sites = (self._index or {}).get(fi.qual, [])
+        if not sites:
+            return [({}, {})]
+        groups = {}
+        for cf, r, e in sites:
+            b = self.const_bindings(e.value, fi)
+            g = groups.setdefault(b, {})
+            for p, kd in self._argkinds(e.value, fi, e.state.facts, cf, {}, r, 0):
+                g[p] = self._norm(g.get(p, frozenset()) | kd)
+        return [(dict(b), g) for b, g in groups.items()]
 
     def _textual(self, fi, name, atxt):
         if atxt in ("str", "Union[str,None]", "Query", "Union[Query,None]", "QueryVariable", "Any", "'Sequence[str]'", "Sequence[str]") \
@@ -353,15 +370,6 @@ class Kinds:
             return k(DEC)
         if name in ("MultiDict", "MultiDictProxy", "CIMultiDict"):
             return self._norm(frozenset().union(*[kd(a) for a in args])) if args else k(CONST)
-        if name == "make_netloc":
-            out = frozenset()
-            enc = dict(t[3]).get("encode", args[4] if len(args) > 4 else ("const", False))
-            for i, a in enumerate(args[:4]):
-                ka = kd(a)
-                if i < 2 and enc == ("const", True):
-                    ka = frozenset("ENC:userinfo" if x == DEC else x for x in ka)
-                out |= ka
-            return self._norm(out)
         if name in ("split_url",):
             return kd(args[0]) if args else k(UNK)
         if name in ("split_netloc",):
@@ -370,7 +378,7 @@ class Kinds:
             return self._norm(frozenset().union(*[kd(a) for a in args]))
         target = self.callee(t, fi)
         if target is not None:
-            s = self.summary(target, self._argkinds(t, target, facts, fi, pk, res, d))
+            s = self.summary(target, self._argkinds(t, target, facts, fi, pk, res, d), self.const_bindings(t, target))
             if isinstance(s, tuple):
                 return self._norm(frozenset().union(*s))
             return s
@@ -379,15 +387,32 @@ class Kinds:
         return k(UNK)
 
     # ------------------------------------------------------------------
-    def summary(self, target: FuncInfo, argkinds: tuple):
-        key = (target.qual, argkinds)
+    def const_bindings(self, t, target):
+        """Boolean / None literal arguments are propagated into the callee (make_netloc(..., True) vs encode=False)."""
+        params = [p for p in target.params if p not in ("self", "cls")]
+        out = {}
+        for p, a in zip(params, [x for x in t[2] if x[0] != "star"]):
+            if a[0] == "const" and isinstance(a[1], bool):
+                out[p] = a
+        for kw, v in t[3]:
+            if kw in params and v[0] == "const" and isinstance(v[1], bool):
+                out[kw] = v
+        for p in params:
+            if p not in out and p not in dict(zip(params, [x for x in t[2] if x[0] != "star"])) and p not in dict(t[3]):
+                dflt = target.param_default(p)
+                if isinstance(dflt, ast.Constant) and isinstance(dflt.value, bool):
+                    out[p] = ("const", dflt.value)
+        return tuple(sorted(out.items()))
+
+    def summary(self, target: FuncInfo, argkinds: tuple, bindings: tuple = ()):
+        key = (target.qual, argkinds, bindings)
         if key in self._summ:
             return self._summ[key]
         if key in self._active:
             return frozenset()
         self._active.add(key)
         try:
-            r = analyze(self.model, target)
+            r = analyze(self.model, target, dict(bindings) or None)
             pk = dict(argkinds)
             outs = []
             for s, v, _n in r.returns:
